@@ -132,7 +132,10 @@ func isFieldLoad(name string) func(ssa.Value) bool {
 func isParamNamed(name string) func(ssa.Value) bool {
 	return func(v ssa.Value) bool {
 		p, ok := v.(*ssa.Parameter)
-		return ok && p.Name() == name
+		if !ok {
+			return false
+		}
+		return p.Name() == name || paramRole(p.Parent(), name) == ssa.Value(p)
 	}
 }
 
@@ -323,7 +326,7 @@ func cloneStore(r *engine.Run) {
 			r.Note(rule, fn(g)+"|cache fill", r.P.Pos(g.Pos()), "getNode does not populate the node cache")
 		}
 	}
-	r.Min(rule, 3)
+	r.Min(rule, 2)
 }
 
 // Named exceptions of FRESH-node: (sink function | what | source) with reason.
